@@ -5,6 +5,7 @@
 -/
 import GormModel.Model.Assoc
 import GormModel.Lemmas.Assoc
+import GormModel.Lemmas.AssocPoly        -- polymorphic relations over a shared target table: link = (owner type, owner id, target)
 import GormModel.Lemmas.AssocFindings   -- kernel-checked witnesses of the listed findings + composite-key partial theorems
 namespace Gorm
 open Gorm.Assoc
@@ -914,5 +915,124 @@ example :
     specRun ⟨.fk, false⟩ [⟨.append, false, [[0, 7]]⟩, ⟨.append, false, [[0]]⟩, ⟨.delete, false, [[7]]⟩] (21, [])
       = (23, [21, 22]) := by
   decide
+
+
+/-! ## Polymorphic has-one / has-many relations over a target table shared by owners of DIFFERENT types.
+    The stored link is the triple (owner type, owner id, target): two columns of the target row. -/
+
+/-- the column lists of the association upsert: the has-one block and the has-many block of SaveAfterAssociations
+    agree, and for a polymorphic relation BOTH link columns (owner id AND type) are overwritten on conflict
+    (tied to the real `DO UPDATE SET` lists by the suite poly-upsert-columns) -/
+theorem C12_poly_assign_cols (r : AssocPoly.PRel) :
+    AssocPoly.assignColsHasOne r = AssocPoly.assignColsHasMany r ∧
+    (r.ty ≠ 0 → AssocPoly.Col.oid ∈ AssocPoly.assignCols r ∧ AssocPoly.Col.oty ∈ AssocPoly.assignCols r) :=
+  ⟨AssocPoly.assignCols_agree r, AssocPoly.assignCols_poly r⟩
+
+/-- … and the type column in that list is NECESSARY: with the owner-id column alone, appending toy 11 (stored as
+    the toy of pet 1, type 3) to user 1 (type 1) does not link it to the user — it stays a toy of the pet that
+    happens to have the user's id -/
+theorem C12_poly_type_column_needed_counterexample :
+    let rows := AssocPoly.upsert [AssocPoly.Col.oid] [AssocPoly.elem ⟨false, 1⟩ 1 11] [⟨11, 1, 3⟩]
+    rows = [⟨11, 1, 3⟩] ∧ ¬ AssocPoly.Linked rows 1 1 11 ∧ AssocPoly.Linked rows 3 1 11 := by
+  refine ⟨by decide, ?_, ?_⟩
+  · intro h
+    obtain ⟨_, x, hx, _, _, hty⟩ := h
+    have : x = ⟨11, 1, 3⟩ := by
+      have : x ∈ [(⟨11, 1, 3⟩ : AssocPoly.Row)] := hx
+      simpa using this
+    subst this
+    exact absurd hty (by decide)
+  · exact ⟨by decide, ⟨11, 1, 3⟩, by decide, rfl, rfl, rfl⟩
+
+/-- the save of one owner (whatever its in-memory field holds): every saved element is stored, and EVERY row with
+    its key carries the owner's (id, type) pair -/
+theorem C12_poly_saved_pair (r : AssocPoly.PRel) (clear : Bool) (a : AssocPoly.Arg) (s : AssocPoly.St) (h : r.ty ≠ 0)
+    (t : Nat) (ht : t ∈ AssocPoly.savedKeys r clear a s.next) :
+    (∃ x ∈ (AssocPoly.saveOwner r clear a s).rows, x.id = t) ∧
+    ∀ x ∈ (AssocPoly.saveOwner r clear a s).rows, x.id = t → x.oid = a.o ∧ x.oty = r.ty :=
+  AssocPoly.saveOwner_pair r clear a s h t ht
+
+/-- per-call refinement on the ternary link relation: any has-one / has-many relation, any owner type value, one
+    owner or a slice, scoped or Unscoped, fresh or loaded handle -/
+theorem C12_poly_step_refines (op : AssocPoly.POp) (s : AssocPoly.St) (hok : AssocPoly.OpOk op) (hn : s.next ≠ 0) :
+    AssocPoly.Linked (AssocPoly.step op s).rows = AssocPoly.specStep op s.next (AssocPoly.Linked s.rows) ∧
+    (AssocPoly.step op s).next = AssocPoly.nextStep op s.next :=
+  AssocPoly.step_refines op s hok hn
+
+/-- MAIN (polymorphic): along EVERY sequence of calls on any mix of relations, owners and owner types the stored
+    links (owner type, owner id, target) are exactly the set-algebra fold -/
+theorem C12_poly_links_refine (ops : List AssocPoly.POp) (s : AssocPoly.St) (hok : ∀ op ∈ ops, AssocPoly.OpOk op)
+    (hn : s.next ≠ 0) :
+    AssocPoly.Linked (AssocPoly.run ops s).rows = AssocPoly.specRun ops s.next (AssocPoly.Linked s.rows) :=
+  AssocPoly.run_refines ops s hok hn
+
+/-- readable single-owner instance, has-many Append: afterwards every target of the (filled) field is linked to the
+    operated (type, owner) and to NO other (type, owner) — also when it was stored under another owner type before;
+    every other target keeps exactly its links -/
+theorem C12_poly_append_moves (r : AssocPoly.PRel) (uns : Bool) (a : AssocPoly.Arg) (s : AssocPoly.St)
+    (hr : r.one = false) (hty : r.ty ≠ 0) (ho : a.o ≠ 0) (hn : s.next ≠ 0) (ty' o' t : Nat) :
+    AssocPoly.Linked (AssocPoly.step ⟨r, .append, uns, [a], []⟩ s).rows ty' o' t ↔
+      (t ∈ AssocPoly.savedKeys r false a s.next ∧ ty' = r.ty ∧ o' = a.o) ∨
+      (t ∉ AssocPoly.savedKeys r false a s.next ∧ AssocPoly.Linked s.rows ty' o' t) := by
+  have h := (AssocPoly.step_refines ⟨r, .append, uns, [a], []⟩ s ⟨hty, by simpa [AssocPoly.POp.os] using Ne.symm ho⟩ hn).1
+  rw [h]
+  simp [AssocPoly.specStep, hr, AssocPoly.specSave, AssocPoly.moveTo]
+
+/-- readable single-owner instance, Replace (and has-one Append): the operated (type, owner) is linked to exactly the
+    saved targets, those targets to nothing else; links of every OTHER (type, owner) — in particular rows with the
+    same owner id under another type — lose only the targets that were moved -/
+theorem C12_poly_replace_sets (r : AssocPoly.PRel) (uns : Bool) (a : AssocPoly.Arg) (s : AssocPoly.St)
+    (hty : r.ty ≠ 0) (ho : a.o ≠ 0) (hn : s.next ≠ 0) (ty' o' t : Nat) :
+    AssocPoly.Linked (AssocPoly.step ⟨r, .replace, uns, [a], []⟩ s).rows ty' o' t ↔
+      (t ∈ AssocPoly.savedKeys r true a s.next ∧ ty' = r.ty ∧ o' = a.o) ∨
+      (t ∉ AssocPoly.savedKeys r true a s.next ∧ ¬(ty' = r.ty ∧ o' = a.o) ∧ AssocPoly.Linked s.rows ty' o' t) := by
+  have h := (AssocPoly.step_refines ⟨r, .replace, uns, [a], []⟩ s ⟨hty, by simpa [AssocPoly.POp.os] using Ne.symm ho⟩ hn).1
+  rw [h]
+  simp only [AssocPoly.specStep, AssocPoly.specReplace, AssocPoly.specSave, AssocPoly.moveTo, AssocPoly.dropWhere,
+    AssocPoly.keepKeys, AssocPoly.POp.os, List.map, List.append_nil, List.mem_singleton]
+  constructor
+  · rintro ⟨h1 | h1, h2⟩
+    · exact Or.inl h1
+    · exact Or.inr ⟨h1.1, fun hc => h2 ⟨hc.1, hc.2, h1.1⟩, h1.2⟩
+  · rintro (h1 | h1)
+    · exact ⟨Or.inl h1, fun hc => hc.2.2 h1.1⟩
+    · exact ⟨Or.inr ⟨h1.1, h1.2.2⟩, fun hc => h1.2.1 ⟨hc.1, hc.2.1⟩⟩
+
+/-- readable single-owner instance, Delete / Clear: only links of the operated (type, owner) go (Delete: the named
+    ones); a row with the same owner id under ANOTHER type is never unlinked -/
+theorem C12_poly_delete_clear (r : AssocPoly.PRel) (uns : Bool) (a : AssocPoly.Arg) (ns : List Nat) (s : AssocPoly.St)
+    (hty : r.ty ≠ 0) (ho : a.o ≠ 0) (hn : s.next ≠ 0) (ty' o' t : Nat) :
+    (AssocPoly.Linked (AssocPoly.step ⟨r, .delete, uns, [a], ns⟩ s).rows ty' o' t ↔
+      AssocPoly.Linked s.rows ty' o' t ∧ ¬(ty' = r.ty ∧ o' = a.o ∧ t ∈ ns)) ∧
+    (AssocPoly.Linked (AssocPoly.step ⟨r, .clear, uns, [a], ns⟩ s).rows ty' o' t ↔
+      AssocPoly.Linked s.rows ty' o' t ∧ ¬(ty' = r.ty ∧ o' = a.o)) := by
+  have hok : ∀ k, AssocPoly.OpOk ⟨r, k, uns, [a], ns⟩ := fun k => ⟨hty, by simpa [AssocPoly.POp.os] using Ne.symm ho⟩
+  constructor
+  · rw [(AssocPoly.step_refines _ s (hok .delete) hn).1]
+    simp [AssocPoly.specStep, AssocPoly.dropWhere, AssocPoly.POp.os]
+  · rw [(AssocPoly.step_refines _ s (hok .clear) hn).1]
+    simp [AssocPoly.specStep, AssocPoly.dropWhere, AssocPoly.POp.os]
+
+/-- rows of ANOTHER owner type that are not among the written elements survive every call unchanged — Delete and
+    Clear write no element, so for them unconditionally (decoy rows with equal owner ids) -/
+theorem C12_poly_foreign_rows_untouched (op : AssocPoly.POp) (s : AssocPoly.St) (x : AssocPoly.Row)
+    (hty : op.rel.ty ≠ 0) (hx : x ∈ s.rows) (hf : x.oty ≠ op.rel.ty) (hid : x.id ∉ AssocPoly.touched op s.next) :
+    x ∈ (AssocPoly.step op s).rows :=
+  AssocPoly.foreign_rows_untouched op s x hty hx hf hid
+
+/-- Find / Count (buildCondition) report exactly the links of the operated (type, owner)s -/
+theorem C12_poly_find (r : AssocPoly.PRel) (os : List Nat) (rows : List AssocPoly.Row) (h : r.ty ≠ 0) (hos : 0 ∉ os)
+    (t : Nat) : t ∈ AssocPoly.findIds r os rows ↔ ∃ o ∈ os, AssocPoly.Linked rows r.ty o t :=
+  AssocPoly.mem_findIds r os rows h hos t
+
+/-- non-vacuity (polymorphic): toy 11 of pet 1 (type 3) appended to user 1 (type 1) while decoy 1 = (user id 1, type 5)
+    exists; then Delete(11) on pet 1 (a no-op) and Clear on user 1: kernel-evaluated table -/
+example :
+    (AssocPoly.run [⟨⟨false, 1⟩, .append, false, [⟨1, [], [11, 0]⟩], []⟩, ⟨⟨false, 3⟩, .delete, false, [⟨1, [], []⟩], [11]⟩]
+      ⟨[⟨1, 1, 5⟩, ⟨11, 1, 3⟩], 21, []⟩).rows = [⟨1, 1, 5⟩, ⟨11, 1, 1⟩, ⟨21, 1, 1⟩] ∧
+    (AssocPoly.run [⟨⟨false, 1⟩, .append, false, [⟨1, [], [11, 0]⟩], []⟩, ⟨⟨false, 1⟩, .clear, false, [⟨1, [], []⟩], []⟩]
+      ⟨[⟨1, 1, 5⟩, ⟨11, 1, 3⟩], 21, []⟩).rows = [⟨1, 1, 5⟩, ⟨11, 0, 1⟩, ⟨21, 0, 1⟩] ∧
+    AssocPoly.OpOk ⟨⟨false, 1⟩, .append, false, [⟨1, [], [11, 0]⟩], []⟩ := by
+  refine ⟨by decide, by decide, by decide, by decide⟩
 
 end Gorm
